@@ -80,6 +80,9 @@ def build(spec):
         fields = []
         for i, c in enumerate(v['fields']):
             p = {}
+            if c == 'x':        # `ignore` and `method` on one field: ignored
+                p['method'] = 'fmt_m'
+                c = 'i'
             if c == 'i':
                 p['ignore'] = True
             if c in 'rb':
@@ -319,6 +322,8 @@ def gen_specs(tier, seed):
         specs.append(Spec('enum', True, [dict(kind='tuple', vname='Rv', nf=True, fields=['i', 'l']), dict(U)]))
         specs.append(Spec('struct', None, [dict(kind='tuple', vname=None, nf=None, fields=['i', 'p', 'm'])], True))
         specs.append(Spec('struct', False, [dict(kind='tuple', vname=None, nf=None, fields=['p', 'i', 'p'])], True))
+        specs.append(Spec('struct', None, [dict(kind='named', vname=None, nf=None, fields=['p', 'x', 'm'])]))
+        specs.append(Spec('enum', None, [dict(kind='tuple', vname=None, nf=None, fields=['x', 'p']), dict(kind='named', vname=None, nf=None, fields=['r', 'x'])]))
         # degenerate shapes: zero-field structs and variants (a name must be shown), flipped named_field on them
         specs.append(Spec('struct', None, [dict(kind='tuple', vname=None, nf=None, fields=[])]))
         specs.append(Spec('struct', 'Rn', [dict(kind='named', vname=None, nf=None, fields=[])], False))
